@@ -909,7 +909,10 @@ func crashOnce(w *World, mode string, victim int, heights uint64, cut int, walVa
 			stop, err := s.startGatedViaFastSync(g)
 			stopSwitch = stop
 			if err != nil && strings.HasPrefix(err.Error(), "infra:") {
-				out.Problems = append(out.Problems, err.Error())
+				// no port could be bound for the switch: start this crash point the direct way instead
+				if err2 := s.startGated(g); err2 != nil {
+					out.StartErr = "OnStart failed: " + err2.Error()
+				}
 			} else if err != nil {
 				out.StartErr = "start through fast sync failed: " + err.Error()
 			}
